@@ -55,7 +55,8 @@ from spyne.const.http import HTTP_405, HTTP_500
 from spyne.error import RequestNotAllowed
 from spyne.model.fault import Fault
 from spyne.model.primitive import Date, Time, DateTime
-from spyne.protocol.xml import XmlDocument, _cleanup_namespaces
+from spyne.protocol.xml import XmlDocument, _cleanup_namespaces, \
+                                                      _reject_entity_references
 from spyne.protocol.soap.mime import collapse_swa
 from spyne.server.http import HttpTransportContext
 
@@ -114,6 +115,8 @@ def _parse_xml_string(xml_string, parser, charset=None):
     except XMLSyntaxError as e:
         logger_invalid.error("%r in string %r", e, string)
         raise Fault('Client.XMLSyntaxError', str(e))
+
+    _reject_entity_references(root)
 
     return root, xmlids
 
